@@ -154,31 +154,8 @@ func (s *Sym) stableLoad(load *ssa.UnOp) bool {
 		if s.escapes[r] {
 			return false
 		}
-		var ov []*ssa.Store
-		for _, st := range s.stores[r] {
-			_, sp := rootPath(st.Addr)
-			if overlaps(sp, path) {
-				ov = append(ov, st)
-			}
-		}
-		if len(ov) == 0 {
-			return true
-		}
-		if len(ov) > 1 {
-			return false
-		}
-		st := ov[0]
-		if st.Block() == load.Block() {
-			for _, in := range st.Block().Instrs {
-				if in == st {
-					return true
-				}
-				if in == load {
-					return false
-				}
-			}
-		}
-		return s.dom(st.Block(), load.Block())
+		rs, ok := s.reaching(load, r, path)
+		return ok && len(rs) <= 1
 	case *ssa.Parameter, *ssa.Global, *ssa.FreeVar:
 		for k, sts := range s.pstores {
 			if overlaps(k, s.rootKey(r)+path) {
@@ -285,6 +262,15 @@ func (s *Sym) of(v ssa.Value) string {
 		switch x.Op {
 		case token.MUL:
 			s.dep(v, x.X)
+			if root, path := rootPath(x.X); root != nil {
+				if al, isAl := root.(*ssa.Alloc); isAl && !s.escapes[al] {
+					if rs, ok := s.reaching(x, al, path); ok && len(rs) == 1 {
+						_, sp := rootPath(rs[0].Addr)
+						s.dep(v, rs[0].Val)
+						return s.Of(rs[0].Val) + strings.TrimPrefix(path, sp)
+					}
+				}
+			}
 			a := s.Of(x.X)
 			if s.stableLoad(x) && strings.HasPrefix(a, "&") {
 				return strings.TrimPrefix(a, "&")
@@ -459,3 +445,72 @@ func (s *Sym) canPrecede(a, b ssa.Instruction) bool {
 	}
 	return false
 }
+
+// reaching computes the stores to alloc a that may define the value read by load (field path
+// `path`): walking backwards from the load, a store whose path is a prefix of the load's path
+// kills the walk (it covers the location); a store of a sub-location of the loaded value makes
+// the result unknown (ok=false).
+func (s *Sym) reaching(load *ssa.UnOp, a *ssa.Alloc, path string) (out []*ssa.Store, ok bool) {
+	type item struct {
+		b   *ssa.BasicBlock
+		end int // examine instructions [0,end)
+	}
+	byBlock := map[*ssa.BasicBlock][]*ssa.Store{}
+	for _, st := range s.stores[a] {
+		byBlock[st.Block()] = append(byBlock[st.Block()], st)
+	}
+	pos := func(in ssa.Instruction) int {
+		for i, x := range in.Block().Instrs {
+			if x == in {
+				return i
+			}
+		}
+		return -1
+	}
+	seen := map[*ssa.BasicBlock]bool{}
+	found := map[*ssa.Store]bool{}
+	ok = true
+	var visit func(b *ssa.BasicBlock, end int, first bool)
+	visit = func(b *ssa.BasicBlock, end int, first bool) {
+		if !first {
+			if seen[b] {
+				return
+			}
+			seen[b] = true
+		}
+		// last covering store before `end`
+		for i := end - 1; i >= 0; i-- {
+			st, isSt := b.Instrs[i].(*ssa.Store)
+			if !isSt {
+				continue
+			}
+			r, sp := rootPath(st.Addr)
+			if r != ssa.Value(a) {
+				continue
+			}
+			if strings.HasPrefix(path, sp) { // store covers the loaded location
+				found[st] = true
+				return
+			}
+			if strings.HasPrefix(sp, path) { // store into a part of the loaded value
+				ok = false
+				return
+			}
+		}
+		// the alloc itself starts a fresh (zero) cell
+		if a.Block() == b && pos(a) < end {
+			return
+		}
+		for _, p := range b.Preds {
+			visit(p, len(p.Instrs), false)
+		}
+	}
+	visit(load.Block(), pos(load), true)
+	for st := range found {
+		out = append(out, st)
+	}
+	return out, ok
+}
+
+// FieldName returns the name of the field a FieldAddr selects.
+func FieldName(fa *ssa.FieldAddr) string { return fieldName(fa.X.Type(), fa.Field) }
